@@ -35,10 +35,11 @@ def run_case(case):
     C05's termination / idle-wait verdicts are reported here when the run cancelled or timed out some caller."""
     r = _cache.run_case(case)
     cancels = any('cancel_at' in c or 'timeout' in c for t in case['prog']['threads'] for c in t['callers']) or \
-        any(f['kind'] == 'cancel' for f in case['prog']['faults'])
+        any(f['kind'] == 'cancel' for f in case['prog']['faults']) or \
+        any(i['out'] in ('raise', 'raise_sync') for i in case['prog']['invs'])      # "... a later call computes afresh"
     if cancels:
         for v in list(r['violations']):
             if v['property'] == 'C05':
                 r['violations'].append(dict(v, property='C06', oracle='cache.bystander_delayed:' + v['oracle'].split('.')[-1],
-                                            signature='a caller is delayed beyond a recomputation in a run where another caller was cancelled or timed out'))
+                                            signature='a caller is delayed beyond a recomputation in a run where another caller was cancelled / timed out or a computation failed'))
     return r
